@@ -221,6 +221,7 @@ var extraFuncs = func() map[string]function.Function {
 		mk("objn"+sfx, cty.Object(map[string]cty.Type{"a": cty.Number, "b": cty.Number}), am)
 		mk("mapmapn"+sfx, cty.Map(cty.Map(cty.Number)), am)
 		mk("listobj"+sfx, cty.List(cty.Object(map[string]cty.Type{"a": cty.Bool})), am)
+		mk("listmaps"+sfx, cty.List(cty.Map(cty.String)), am)
 	}
 	return m
 }()
@@ -273,8 +274,12 @@ func erroneous() []*ex.E {
 			ex.Bin("+", ex.Idx(cv, ex.Num("0")), ex.Num("1")), ex.Call("add", ex.Attr(cv, "a"), ex.Num("1")),
 		)
 		// arguments whose conversion to the parameter type fails (or not) inside the value
-		for _, f := range []string{"mapn", "listn", "setb", "objn", "mapmapn", "listobj"} {
+		for _, f := range []string{"mapn", "listn", "setb", "objn", "mapmapn", "listobj", "listmaps"} {
 			for _, sfx := range []string{"", "m"} {
+				// an unmarked constructor around an object whose *key* comes from the marked value
+				// (the object is marked as a whole, its container is not)
+				keyed := ex.Obj(ex.ExItem(cv, ex.Tuple(ex.Num("1"), ex.Num("2"))))
+				out = append(out, ex.Call(f+sfx, ex.Tuple(keyed)), ex.Call(f+sfx, keyed), ex.Call(f+sfx, ex.Obj(ex.IdItem("k", keyed))), ex.Call("v"+f+sfx, ex.Tuple(keyed)))
 				out = append(out, ex.CallX(f+sfx, cv), ex.CallX(f+sfx, ex.Tuple(cv, cv)), ex.CallX("v"+f+sfx, cv), ex.Call("v"+f+sfx, cv, cv),
 					ex.Call(f+sfx, cv), ex.Call(f+sfx, ex.Tuple(cv)), ex.Call(f+sfx, ex.Obj(ex.IdItem("a", cv))), ex.Call(f+sfx, ex.Obj(ex.IdItem("k", cv))),
 					ex.Call(f+sfx, ex.Attr(cv, "a")), ex.Call(f+sfx, ex.Idx(cv, ex.Num("0"))))
